@@ -287,7 +287,9 @@ pub fn run(a: &Args, rep: &mut Reporter) {
             }
             // determinism: the same program a second time on a fresh device
             let d2 = Dev::empty();
-            let _ = run_scene(&scene, d2.clone(), Judge::Conforming);
+            let mut scene2 = scene.clone();
+            scene2.src_salt = 1 + (idx % 4) as u8;
+            let _ = run_scene(&scene2, d2.clone(), Judge::Conforming);
             rep.stat("determinism_pairs", 1);
             if d1.bytes() != d2.bytes() {
                 let (b1, b2) = (d1.bytes(), d2.bytes());
